@@ -7,7 +7,9 @@ import (
 	"os"
 	"os/exec"
 	"path/filepath"
+	"strconv"
 	"strings"
+	"time"
 
 	"verif/sim/core"
 )
@@ -66,7 +68,7 @@ func (b *built) workerCmd(cfg core.WorkerConfig, cfgPath string, memLimitKB int)
 	cmd := exec.Command("/bin/sh", "-c", sh)
 	cmd.Dir = b.Scratch
 	env := os.Environ()
-	env = append(env, "VERIF_WORKER="+cfgPath, "GOMAXPROCS=1", "GODEBUG=asyncpreemptoff=1", "GORACE=halt_on_error=1 exitcode=66")
+	env = append(env, "VERIF_WORKER="+cfgPath, "VERIF_HEARTBEAT="+cfgPath+".hb", "GOMAXPROCS=1", "GODEBUG=asyncpreemptoff=1", "GORACE=halt_on_error=1 exitcode=66")
 	cmd.Env = env
 	return cmd, nil
 }
@@ -99,4 +101,49 @@ func shortErr(s string, n int) string {
 		return s[:n] + "..."
 	}
 	return s
+}
+
+// runMonitored runs a worker and watches its heartbeat file (sim/core
+// heartbeat): a worker that has not started an execution for the watchdog
+// period plus a grace - its own watchdog goroutine cannot run while the code
+// under test spins in a loop without function calls - is killed, and the
+// text a watchdog hit would have left is put in its place.
+func runMonitored(cmd *exec.Cmd, cfgPath string, inf core.Info, stderr *bytes.Buffer) error {
+	wd := inf.WatchdogSec
+	if wd <= 0 {
+		wd = 60
+	}
+	if s := os.Getenv("VERIF_WATCHDOG_S"); s != "" {
+		if n, err := strconv.Atoi(s); err == nil && n > 0 {
+			wd = n
+		}
+	}
+	limit := time.Duration(wd)*time.Second + 45*time.Second
+	hb := cfgPath + ".hb"
+	os.Remove(hb)
+	if err := cmd.Start(); err != nil {
+		return err
+	}
+	done := make(chan error, 1)
+	go func() { done <- cmd.Wait() }()
+	tick := time.NewTicker(2 * time.Second)
+	defer tick.Stop()
+	started := time.Now()
+	for {
+		select {
+		case err := <-done:
+			return err
+		case <-tick.C:
+			last := started
+			if st, err := os.Stat(hb); err == nil && st.ModTime().After(last) {
+				last = st.ModTime()
+			}
+			if time.Since(last) > limit {
+				cmd.Process.Kill()
+				err := <-done
+				fmt.Fprintf(stderr, "\nVERIF-WATCHDOG (parent) no execution started for %v: the worker did not answer its own watchdog (a loop without function calls cannot be interrupted at GOMAXPROCS=1) and was killed\n", limit)
+				return err
+			}
+		}
+	}
 }
